@@ -264,3 +264,9 @@ def unit_test(case):
         "assert [b.raw for b in P[-len(B):]] == [b.raw for b in B]\n"
         "assert [type(b) for b in P[-len(B):]] == [type(b) for b in B]\n"
     )
+
+
+def ENV_SHARDS(tier):
+    """The broad, cheap families: run again in a fresh interpreter per environment (engine.run_environments)."""
+    return [s for s in shards('quick') if (s[0] == "seq" and s[1][0] <= 2) or s == ("xwindow", 4096)]
+
